@@ -16,7 +16,7 @@ example : ProvedTr.length = 19 := by decide
 /-- **perm_selections / perm_arguments / alpha_fragments** for the rules of `ProvedTr` (general form; instances as in
     C06_inv.lean). The remaining rules: `PossibleFragmentSpreads`, `NoFragmentCycles` (Props/C06_inv4.lean), the four
     variable rules (C06_inv5.lean), `SingleFieldSubscriptions` (C06_inv10.lean); all 25 together:
-    `tr_invariance_25_partial`. Not covered: `OverlappingFieldsCanBeMerged`. -/
+    `tr_invariance_25_partial`. Not covered: `OverlappingFieldsCanBeMerged`. [ALONE-RUN statement, rule by rule: each rule visitor in a chain of its own; for the verdict of the chain `validate_ast` runs see `Props/C06_chain.lean: chainM_six_transformations`.] -/
 theorem tr_invariance_all_partial (T : Tr) (hinj : ∀ a b, T.frag a = T.frag b → a = b) (s : SchemaD) (fx : Fixes) (d : Doc)
     (r : Rule) (hr : r ∈ ProvedTr) (hns : r ≠ .singleFieldSubscriptions) : Silent s fx r (T.doc d) ↔ Silent s fx r d := by
   simp only [ProvedTr, List.mem_append] at hr
